@@ -36,13 +36,13 @@ CHECKS = {
                 text="Bounded symbolic verification: shared-edge/vertex detection, adjacency rows, element-to-element counts and edge enumeration are decided for EVERY vertex numbering of two (three for counts, thorough) elements; geometric quantities for every non-degenerate triangle; refinement/barycentric children have 1/4 resp. 1/6 of the parent's oriented area for all vertex coordinates; derived tables of 8 base meshes are cross-checked concretely (auxiliary).",
                 ref="3/C11"),
     "C12": dict(cat="other", tech="symbolic execution of the rule constructors (z3 terms) + SMT (LIA path exploration for unbounded orders, LRA over all polynomials with symbolic coefficients, NRA for Duffy region maps)",
-                text="Bounded symbolic verification: lookups decided for every integer order (all paths of the real lookup code), exactness decided for every polynomial of the stated degree for all 20 triangle / 30 Gauss orders and Duffy orders 2..4 (5 thorough), region maps for all 1-D nodes in (0,1), remaps for every point. unsat = holds for all values within these bounds.",
+                text="Bounded symbolic verification: lookups decided for every integer order (all paths of the real lookup code), exactness decided for every polynomial of the stated degree for all 20 triangle / 30 Gauss orders and Duffy orders 2..5 (7 thorough; exact integer moments, LRA claim decided in blocks of 40 coefficients), region maps for all 1-D nodes in (0,1), remaps for every point. unsat = holds for all values within these bounds.",
                 ref="3/C12"),
     "C13": dict(cat="other", tech="symbolic execution of the sparse assembler and GridFunction routines on free geometry; identities under a symbolic quadrature rule with moment hypotheses decided in LRA after sound monomial abstraction (z3/cvc5)",
                 text="Bounded symbolic verification: identity matrices (DP0/P1/DP1/RWG/SNC pairs, with segments) and Laplace-Beltrami equal the closed-form exact integrals for EVERY quadrature rule satisfying the moment equations of the needed degree; integrate, l2_norm, evaluate_on_element_centers, evaluate_on_vertices, projections, MultiplicationOperator (component and inner mode) and the projections of jit-style and vectorised callables (uninterpreted functions of point, normal and domain index, on segment spaces) equal a harness-written direct quadrature for all coefficients and geometry values, on meshes of <= 6 elements. Recovery of exact coefficients from the projections needs the mass solve (C15). Three defects repaired.",
                 ref="3/C13"),
     "C14": dict(cat="other", tech="symbolic execution of the operator-algebra classes on symbolic matrices / scalars / vectors for enumerated expression trees (programs); polynomial identities decided by z3/cvc5; exact-rational LAPACK contract stub for the mass solve",
-                text="Bounded symbolic verification over programs: every well-typed expression tree of depth 1 over 4 leaf operators (dense, sparse, generic; real and complex) and 8 operations, and a seeded sample of depth-2 trees (all of them in the thorough tier), evaluates - via to_dense, matvec, matmat, application to grid functions and strong_form - to the matrix expression for ALL matrix entries, scalars and vectors; ill-typed trees must raise; likewise potential-operator sums/scalings, 2x2 blocked operators and grid-function arithmetic. Two genuine defects were repaired.",
+                text="Bounded symbolic verification over programs: every well-typed expression tree of depth 1 over 4 leaf operators (dense, sparse, generic; real and complex) and 8 operations, and a seeded sample of depth-2 trees (all of them in the thorough tier), evaluates - via to_dense, matvec, matmat, application to grid functions and strong_form - to the matrix expression for ALL matrix entries, scalars and vectors; ill-typed trees must raise; likewise potential-operator sums/scalings, 2x2 blocked operators, grid-function arithmetic and real single-precision leaves applied to complex operands (values; dtype preservation is outside the claim). Two genuine defects were repaired.",
                 ref="3/C14"),
     "C15": dict(cat="other", tech="symbolic execution of the solver wrappers against contract stubs of scipy.linalg.solve/lu_factor/lu_solve and scipy.sparse.linalg.gmres/cg; wiring claims as polynomial identities, lu(A,A*f)=f in LRA after monomial abstraction (z3/cvc5)",
                 text="Bounded symbolic verification of the solver wrappers: for symbolic 2x2/4x4 (blocked: 6x6) real and complex operators the system handed to SciPy is exactly (weak form, projections) or (strong form, coefficients), the solution is unpacked over the domain spaces in order with the right lengths, lu(A, A*f) = f for every invertible matrix (also with precomputed factors), and iteration counts / residual lists are those of the callback calls. Convergence and info==0 are SciPy's and are outside the claim. One genuine defect was repaired.",
@@ -54,7 +54,7 @@ CHECKS = {
                 text="For a symbolic vector and free geometry the FMM-mode matvec equals the dense-mode matvec row by row for scalar, hypersingular, Maxwell electric-field and Maxwell magnetic-field operators (whole-grid, boundary-dof and segment spaces, one and two grids), scalar potentials and both Maxwell potentials, with the far field replaced by exact summation (both through a fake exafmm and through the library's own dense_evaluation switch); the kernel relations used to couple both paths are proved for the real kernels.",
                 ref="3/C17"),
     "C18": dict(cat="model_checking", tech="bounded exploration of API-call histories on the real code with symbolic parameter tokens; per history an LIA validity query (z3/cvc5) that every quadrature/FMM setting reaching the numerics is the operator's own",
-                text="All histories of <= 2 (3 thorough) events from 7 kinds x 2 placements of the operator's creation x 7 observed operation kinds (791 quick) are executed; for each the solver decides, for ALL parameter values, whether a setting other than the explicit parameter object's can reach a rule lookup or a cached FMM interface. Two genuine defects surfaced: one repaired (FMM ignored explicit parameters), one listed as a known finding (grid-function projections use the space-cached, globally parameterised mass matrix).",
+                text="All histories of <= 2 (3 thorough) events from 7 kinds x 2 placements of the operator's creation x 10 observed operation kinds (dense, sparse, potential, grid function, FMM, and the Helmholtz constructors with an imaginary wavenumber that forward to modified Helmholtz; 1130 histories quick) are executed; for each the solver decides, for ALL parameter values, whether a setting other than the explicit parameter object's can reach a rule lookup or a cached FMM interface. Two genuine defects surfaced: one repaired (FMM ignored explicit parameters), one listed as a known finding (grid-function projections use the space-cached, globally parameterised mass matrix).",
                 ref="3/C18"),
     "C19": dict(cat="other", tech="path exploration of io.export / io.import_grid with symbolic domain indices (z3 LIA) and symbolic coefficients (polynomial / NRA claims), meshio as an in-memory contract stub; replays through real meshio files",
                 text="Bounded symbolic verification: for 3 elements with arbitrary domain indices in [0,2^31) every path of the Gmsh tag logic is explored (ASCII and binary) and the imported indices, vertices and elements are proved equal to the exported ones; exported node/element data equal the requested transformation of evaluate_on_vertices / evaluate_on_element_centers for all real/complex coefficients (7 transformations). One genuine defect is listed as a known finding (all-zero indices), one was repaired.",
